@@ -12,6 +12,13 @@ const DIRECTIONS: &[&str] = &[
     "car-nesting", "cdr-length", "vector-nesting", "quote-chain", "closure-chain", "continuation-chain", "non-tail-recursion", "nested-expression",
     // long in one direction with structured elements: whichever direction a traversal iterates along, the other one is shallow here
     "list-of-pairs", "list-of-vectors", "vector-of-lists",
+    // a long improper list (conversions treat the proper and the dotted case separately)
+    "dotted-list",
+    // an application with 10^d operands: long along the cdr of the *program* (a body of 10^4 expressions takes the
+    // compiler 30 s - it is quadratic in the body length - so that direction is left out)
+    "wide-application",
+    // a continuation captured at the bottom of a non-tail recursion 10^d deep, re-entered from a later top-level form
+    "continuation-at-depth",
 ];
 const OPERATIONS: &[&str] = &["read", "quote-evaluate", "build", "keep-live-across-collection", "equal", "write", "drop"];
 const DEPTHS: &[u64] = &[1_000, 10_000, 100_000];
@@ -19,11 +26,11 @@ const THREADS: &[&str] = &["main", "2MiB"];
 
 /// Is the combination meaningful?
 fn applicable(dir: &str, op: &str) -> bool {
-    let data = matches!(dir, "car-nesting" | "cdr-length" | "vector-nesting" | "quote-chain" | "list-of-pairs" | "list-of-vectors" | "vector-of-lists");
+    let data = matches!(dir, "car-nesting" | "cdr-length" | "vector-nesting" | "quote-chain" | "list-of-pairs" | "list-of-vectors" | "vector-of-lists" | "dotted-list");
     match op {
-        "read" | "quote-evaluate" | "drop" => data || (dir == "nested-expression" && op != "quote-evaluate"),
+        "read" | "quote-evaluate" | "drop" => data || (matches!(dir, "nested-expression" | "wide-application" | "long-body") && op != "quote-evaluate"),
         "build" => true,
-        "keep-live-across-collection" => dir != "nested-expression" && dir != "non-tail-recursion",
+        "keep-live-across-collection" => !matches!(dir, "nested-expression" | "non-tail-recursion" | "wide-application" | "long-body"),
         "equal" | "write" => data,
         _ => false,
     }
@@ -37,10 +44,13 @@ fn text(dir: &str, d: u64) -> String {
         "cdr-length" => format!("({})", "x ".repeat(d)),
         "vector-nesting" => format!("{}x{}", "#(".repeat(d), ")".repeat(d)),
         "quote-chain" => format!("{}x", "'".repeat(d)),
+        "dotted-list" => format!("({}. y)", "x ".repeat(d)),
         "list-of-pairs" => format!("({})", "(x . y) ".repeat(d)),
         "list-of-vectors" => format!("({})", "#(x y) ".repeat(d)),
         "vector-of-lists" => format!("#({})", "(x y) ".repeat(d)),
         "nested-expression" => format!("{}0{}", "(+ 1 ".repeat(d), ")".repeat(d)),
+        "wide-application" => format!("(+ {})", "1 ".repeat(d)),
+        "long-body" => format!("((lambda () {}))", "1 ".repeat(d)),
         _ => String::new(),
     }
 }
@@ -52,13 +62,18 @@ fn builder(dir: &str, d: u64, var: &str) -> String {
         "cdr-length" => format!("(define (mk n acc) (if (= n 0) acc (mk (- n 1) (cons n acc)))) (define {} (mk {} '()))", var, d),
         "vector-nesting" => format!("(define (mk n acc) (if (= n 0) acc (mk (- n 1) (vector acc)))) (define {} (mk {} 'x))", var, d),
         "quote-chain" => format!("(define (mk n acc) (if (= n 0) acc (mk (- n 1) (list 'quote acc)))) (define {} (mk {} 'x))", var, d),
+        "dotted-list" => format!("(define (mk n acc) (if (= n 0) acc (mk (- n 1) (cons n acc)))) (define {} (mk {} 'end))", var, d),
         "list-of-pairs" => format!("(define (mk n acc) (if (= n 0) acc (mk (- n 1) (cons (cons n n) acc)))) (define {} (mk {} '()))", var, d),
         "list-of-vectors" => format!("(define (mk n acc) (if (= n 0) acc (mk (- n 1) (cons (vector n n) acc)))) (define {} (mk {} '()))", var, d),
         "vector-of-lists" => format!("(define (mk n acc) (if (= n 0) acc (mk (- n 1) (cons (list n n) acc)))) (define {} (list->vector (mk {} '())))", var, d),
         "closure-chain" => format!("(define (mk n f) (if (= n 0) f (mk (- n 1) (lambda () f)))) (define {} (mk {} (lambda () 0)))", var, d),
+        "continuation-at-depth" => format!(
+            "(define kd #f) (define passes 0) (define (deepk n) (if (= n 0) (call/cc (lambda (c) (set! kd c) 0)) (+ 1 (deepk (- n 1))))) (define {} (deepk {})) (if (= passes 0) (begin (set! passes 1) (kd 5)) 'second-pass) (define reentered {})",
+            var, d, var
+        ),
         "continuation-chain" => format!("(define (step prev) (call/cc (lambda (k) k))) (define (mk n prev) (if (= n 0) prev (mk (- n 1) (step prev)))) (define {} (mk {} #f))", var, d),
         "non-tail-recursion" => format!("(define (deep n) (if (= n 0) 0 (+ 1 (deep (- n 1))))) (define {} (deep {}))", var, d),
-        "nested-expression" => format!("(define {} {})", var, text(dir, d)),
+        "nested-expression" | "wide-application" | "long-body" => format!("(define {} {})", var, text(dir, d)),
         _ => String::new(),
     }
 }
@@ -261,7 +276,7 @@ pub fn run(ctx: &Ctx) -> i32 {
         }
     }
     let release = std::env::current_exe().unwrap().to_string_lossy().to_string();
-    let mut outs = run_grid(&release, "release", &keys, Duration::from_secs(120));
+    let mut outs = run_grid(&release, "release", &keys, Duration::from_secs(300));
     let mut profiles = vec!["release"];
     if ctx.tier == Tier::Thorough {
         let debug = format!("{}/.build/debug/mwmc", VERIF_ROOT);
